@@ -9,7 +9,9 @@ From Coq Require Import ZArith Reals List Bool.
 From Rubato.Model Require Import Num Reals Base Validate Async Resamplers.
 From Rubato.Model Require Floats Driver.
 From Rubato.Gen Require Import FastGen.
-From Rubato.Proofs Require Import MalformedP EngineP FastInR FastOutR FastCtorR SincInR SincOutR SincCtorR.
+From Rubato.Proofs Require Import MalformedP EngineP FastInR FastOutR FastCtorR SincInR SincOutR SincCtorR FftInOutP FftInR FftOutR.
+From Rubato.Model Require Import Fft.
+From Rubato.Gen Require Import SynchroGen.
 From Rubato.Gen Require Import SincGen.
 Import ListNotations.
 Local Open Scope R_scope.
@@ -115,6 +117,81 @@ Theorem C03_ctor_sinc_out_R : forall ratio maxrel env ilen inbr chunk nch s,
   exists blen, so_wf env blen s /\ ratio = uratio s /\ uL s = ilen.
 Proof. exact so_ctor_wf_R. Qed.
 
+(** The three synchronous (FFT) resamplers.  [unit_fn] is the spectral core (forward FFT, filter, inverse FFT) as an
+    oracle; what is assumed of it is its length contract (part of the invariant).  FftFixedInOut: any arithmetic (its
+    control state is integer-only); FftFixedIn / FftFixedOut: ideal arithmetic (their f32 quotients read as real quotients). *)
+Theorem C03_fft_inout_call_safe : forall (C : CNum) (S : SNum C) unit_fn (s : @fstate C S FftFixedInOut) wi wo m,
+  xio_wf unit_fn s ->
+  x_precheck (xio_mask_bad (fs_ctl s)) (xio_val_channels (fs_ctl s)) (xio_val_min_in (fs_ctl s))
+             (xio_val_min_out (fs_ctl s)) (fs_mask s) wi wo m = Ok tt ->
+  exists s' outs, xio_pib unit_fn s wi wo m = Ok (s', (xfin s, xfout s), outs) /\ xio_wf unit_fn s' /\
+                  fs_ctl s' = fs_ctl s /\ map zlen outs = map zlen wo.
+Proof. intros C S. exact (@xio_call_safe C S). Qed.
+
+Theorem C03_fft_inout_run_safe : forall (C : CNum) (S : SNum C) unit_fn calls (s : @fstate C S FftFixedInOut), xio_wf unit_fn s ->
+  match xio_run unit_fn s calls with
+  | Ok (s', nin, nout) => xio_wf unit_fn s' /\ fs_ctl s' = fs_ctl s /\ exists k, (0 <= k /\ nin = k * xfin s /\ nout = k * xfout s)%Z
+  | Err _ => True
+  | Panic _ | UB _ | Diverge => False
+  end.
+Proof. intros C S. exact (@xio_history C S). Qed.
+
+Theorem C03_fft_in_call_safe_R : forall unit_fn (s : @fstate CR SR FftFixedIn) wi wo m,
+  xi_wf unit_fn s -> xi_pre s wi wo m = Ok tt ->
+  let ready := ((isaved s + iC s) / ifin s)%Z in
+  exists s' outs, @xi_pib CR SR unit_fn s wi wo m = Ok (s', (iC s, (ready * ifout s)%Z), outs) /\ xi_wf unit_fn s' /\
+                  isaved s' = ((isaved s + iC s) mod ifin s)%Z /\
+                  ifin s' = ifin s /\ ifout s' = ifout s /\ iC s' = iC s /\ inch s' = inch s.
+Proof. exact xi_call_safe. Qed.
+
+Theorem C03_fft_in_run_safe_R : forall unit_fn calls (s : @fstate CR SR FftFixedIn), xi_wf unit_fn s ->
+  match xi_run unit_fn s calls with
+  | Ok (s', nin, nout) => xi_wf unit_fn s' /\ ifin s' = ifin s /\ ifout s' = ifout s /\ iC s' = iC s /\ (0 <= nin)%Z /\
+                          (nout * ifin s = ifout s * (nin + isaved s - isaved s'))%Z
+  | Err _ => True
+  | Panic _ | UB _ | Diverge => False
+  end.
+Proof. exact xi_history. Qed.
+
+Theorem C03_fft_out_call_safe_R : forall unit_fn (s : @fstate CR SR FftFixedOut) wi wo m,
+  xo_wf unit_fn s -> xo_pre s wi wo m = Ok tt ->
+  exists s' outs, @xo_pib CR SR unit_fn s wi wo m = Ok (s', (oneed s, oCo s), outs) /\ xo_wf unit_fn s' /\
+                  (osaved s' + oCo s = osaved s + (oneed s / ofin s) * ofout s)%Z /\
+                  ofin s' = ofin s /\ ofout s' = ofout s /\ oCo s' = oCo s /\ onc s' = onc s.
+Proof. exact xo_call_safe. Qed.
+
+Theorem C03_fft_out_run_safe_R : forall unit_fn calls (s : @fstate CR SR FftFixedOut), xo_wf unit_fn s ->
+  match xo_run unit_fn s calls with
+  | Ok (s', nin, nout) => xo_wf unit_fn s' /\ ofin s' = ofin s /\ ofout s' = ofout s /\ oCo s' = oCo s /\ (0 <= nout)%Z /\
+                          (nin * ofout s = ofin s * (nout + osaved s' - osaved s))%Z
+  | Err _ => True
+  | Panic _ | UB _ | Diverge => False
+  end.
+Proof. exact xo_history. Qed.
+
+(** the constructors establish the invariants (given the length contract of the core for the block sizes they compute) *)
+Theorem C03_ctor_fft_in_R : forall unit_fn rate_in rate_out chunk sub nch s,
+  (0 < rate_in)%Z -> (0 < rate_out)%Z -> (1 <= chunk)%Z -> (0 <= nch)%Z ->
+  @fft_in_new CR SR rate_in rate_out chunk sub nch = inr (RFftIn s) ->
+  (forall w, zlen w = ifin s -> zlen (unit_fn w) = (2 * ifout s)%Z) ->
+  xi_wf unit_fn s /\ (ifin s * rate_out = ifout s * rate_in)%Z /\ isaved s = 0%Z /\ iC s = chunk.
+Proof. exact xi_ctor. Qed.
+
+Theorem C03_ctor_fft_out_R : forall unit_fn rate_in rate_out chunk sub nch s,
+  (0 < rate_in)%Z -> (0 < rate_out)%Z -> (1 <= chunk)%Z -> (0 <= nch)%Z ->
+  @fft_out_new CR SR rate_in rate_out chunk sub nch = inr (RFftOut s) ->
+  (forall w, zlen w = ofin s -> zlen (unit_fn w) = (2 * ofout s)%Z) ->
+  xo_wf unit_fn s /\ (ofin s * rate_out = ofout s * rate_in)%Z /\ osaved s = 0%Z /\ oCo s = chunk.
+Proof. exact xo_ctor. Qed.
+
+Theorem C03_ctor_fft_inout : forall (C : CNum) (S : SNum C) unit_fn rate_in rate_out chunk nch s,
+  (0 < rate_in)%Z -> (0 < rate_out)%Z -> (0 <= nch)%Z ->
+  (0 <= xio_new_fft_chunks (C:=C) chunk (xio_new_min_chunk_in (xio_new_gcd rate_in rate_out) rate_in))%Z ->
+  @fft_inout_new C S rate_in rate_out chunk nch = inr (RFftInOut s) ->
+  (forall w, zlen w = xfin s -> zlen (unit_fn w) = (2 * xfout s)%Z) ->
+  xio_wf unit_fn s /\ (xfin s * rate_out = xfout s * rate_in)%Z.
+Proof. intros C S. exact (@xio_ctor C S). Qed.
+
 (** the reads of the polynomial resampler are inside the buffer exactly when the window is *)
 Theorem C03_fast_window_R : forall (st : @FastFixedIn CR) d (buf : list (@snum CR SR)) (idx : R),
   (0 <= Flocq.Core.Raux.Zfloor idx - reach_lo d + 16)%Z ->
@@ -139,3 +216,12 @@ Print Assumptions C03_ctor_sinc_in_R.
 Print Assumptions C03_sinc_out_call_safe_R.
 Print Assumptions C03_sinc_out_run_safe_R.
 Print Assumptions C03_ctor_sinc_out_R.
+Print Assumptions C03_fft_inout_call_safe.
+Print Assumptions C03_fft_inout_run_safe.
+Print Assumptions C03_fft_in_call_safe_R.
+Print Assumptions C03_fft_in_run_safe_R.
+Print Assumptions C03_fft_out_call_safe_R.
+Print Assumptions C03_fft_out_run_safe_R.
+Print Assumptions C03_ctor_fft_in_R.
+Print Assumptions C03_ctor_fft_out_R.
+Print Assumptions C03_ctor_fft_inout.
